@@ -26,12 +26,21 @@
     exactly those bytes of exactly that variable and faults never; the decoders never present an
     index ≥ data_size (C05_never_beyond_hex, C05_never_beyond_string, C05_store_bound), the numeric
     stores write `data_size` bytes at 0 (C04).
-  Not proved: the global invariant "the flags stay false along every history" (Appendix B.4 of
-  DESIGN.md), which needs the cursor bounds of every state; and nothing here is about the
-  compiled code's actual accesses — that is what the sanitizer-instrumented correspondence
-  run samples.  Hence PARTIAL.
+  * `C03_no_undefined_operation` (`Proofs/NoUb.lean`, `Proofs/NoUbHist.lean`): along EVERY history of
+    API calls from `cat_init` (any input, handler answers, nested API calls, flag changes; event
+    handlers not answering HOLD) the `ub` flag stays false: the table cursor never leaves the table
+    (`update_command`, `search_command`, command list), a command is selected wherever
+    `self->cmd` / the event's command is dereferenced, the variable cursors stay inside the
+    variable lists, and no print is attempted with the cursor beyond the capacity — for both
+    machines.  The invariants behind it are `UbInv` / `UbInvU` (`C03_index_discipline`).
+  Not proved: the same for the `oob` flag along every history (variable storage vs. declared
+  sizes, parser read cursor, output cursor: these need descriptor well-formedness and the
+  termination of every text inside its region); and nothing here is about the compiled code's
+  actual accesses — that is what the sanitizer-instrumented correspondence run samples.  Hence
+  PARTIAL.
 -/
 import CatVerif.Proofs.NoFault
+import CatVerif.Proofs.NoUbHist
 import CatVerif.Properties.C06
 namespace Cat
 open St
@@ -116,5 +125,23 @@ theorem C03_var_store_exact (slot : Nat) (bs : List Byte) (s : St) (off : Nat)
     (∀ k, k ≠ slot → (slotWrite s slot off bs).slotGet k = s.slotGet k) ∧
     (slotWrite s slot off bs).mem.length = s.mem.length :=
   slotWrite_spec slot bs s off h
+
+/-- the state `cat_init` leaves behind satisfies both index disciplines -/
+theorem C03_init_discipline (D : Desc) (buf ubuf : List Byte) (mem : List (List Byte)) : UbAll D (init D buf ubuf mem) :=
+  ⟨⟨by simp [init], by simp [init], by simp [NeedsCmd, init], by simp [init], by simp [init]⟩,
+   ⟨by simp [NeedsUCmd, init], by simp [init], by simp [init]⟩⟩
+
+/-- **No undefined operation along any history.** -/
+theorem C03_no_undefined_operation (D : Desc) (buf ubuf : List Byte) (mem : List (List Byte)) (ops : List Op)
+    (hok : ∀ op ∈ ops, OpOk op) (hn : 0 < D.commandsNum) :
+    (runOps ⟨D, init D buf ubuf mem⟩ ops).1.s.ub = false := by
+  have := (runOps_noUb ops ⟨D, init D buf ubuf mem⟩ hok hn (C03_init_discipline D buf ubuf mem)).1
+  rw [this]; rfl
+
+/-- the index disciplines hold in every reachable state -/
+theorem C03_index_discipline (D : Desc) (buf ubuf : List Byte) (mem : List (List Byte)) (ops : List Op)
+    (hok : ∀ op ∈ ops, OpOk op) (hn : 0 < D.commandsNum) :
+    UbAll (runOps ⟨D, init D buf ubuf mem⟩ ops).1.D (runOps ⟨D, init D buf ubuf mem⟩ ops).1.s :=
+  (runOps_noUb ops ⟨D, init D buf ubuf mem⟩ hok hn (C03_init_discipline D buf ubuf mem)).2
 
 end Cat
